@@ -1786,7 +1786,7 @@ def _composed_plan(ctx):
 def corr(ctx, oracle_only=False, scale=1.0):
     res = Result()
     res.rule = ('(a) random constructor/setter sequences for both TemperatureParameters classes (number, break points incl. single/duplicate/unsorted<=4/malformed, callable, 0 or 3 arguments) evaluated at 4-9 times incl. exactly on and outside break points; '
-                '(b) real binary Al-Zr PrecipitateModel runs: schedule kind x solver x step mode x threshold x PBM size x constructor|setter x 1-2 solve calls, traced call by call; '
+                '(b) real binary Al-Zr PrecipitateModel runs: schedule kind x solver x step mode x threshold x PBM size x constructor|setter x 1-2 solve calls, traced call by call; (b2) staged runs: solve, setTemperature(another constant | break points | function) WITHOUT reset, solve again - every row of the second solve carries the schedule in force (own generator, first two cases constant->constant and break points->constant); '
                 '(c) real SinglePhaseModel / HomogenizationModel runs: schedule kind (inside one kelvin, slow, fast, hold-ramp-hold, a few table bins, gradient along z, constant) x way of giving it (setter array / function / constructor object / constructor function) x table (default, other precision, off, cleared, switched between solve calls) x RK4|Euler x binary|ternary, duck-typed Arrhenius thermodynamics and NICRAL_TDB, every flux evaluation logged; '
                 'non-trivial = non-isothermal schedule (a) / non-isothermal run with > 5 recorded steps (b) / non-isothermal run with > 3 flux evaluations (c); distinct = (family, op kinds | run parameters)')
     res.monitored = list(MONITORED)
